@@ -347,6 +347,8 @@ func (e *env) runCase(c Case) {
 		e.reseedCase(c)
 	case "eos":
 		e.eosCase(c)
+	case "recover":
+		e.recoverCase(c)
 	case "data":
 		e.dataCase(c)
 	case "flip":
@@ -384,7 +386,7 @@ func corpusCases() []Case {
 
 func main() {
 	r := vlib.NewRun("C15")
-	r.Rule = "kinds: split (server response ++ first packet cut at one point, real Dial; non-trivial = cut strictly inside the response), dh-edge (full handshake + data both ways with key pairs steered so that the shared secret, the server's or the client's public value starts with zero bytes; all non-trivial), hs-parse (parser hook on valid/malformed responses under random chunkings; non-trivial = ≥2 chunks), wrong-secret / tampered-response (non-trivial = all), data (packet streams both directions under chunk/write-size classes; non-trivial = a chunk boundary falls inside a packet or ≥2 packets), flip (every bit of one packet of each legal edge shape incl. header-only; all non-trivial), flipmix (one bit of one packet of a mixed burst), eos (the last packets arrive in the same underlying read as EOF/reset/timeout, caller buffers 1..70000; all non-trivial), reseed (many PRNG-seed packets processed by a Read while another goroutine Writes; all non-trivial), tickets (histories of connect/issue/restart/age; non-trivial = a ticket is presented or expires), password, hello; distinct by canonical case text"
+	r.Rule = "kinds: split (server response ++ first packet cut at one point, real Dial; non-trivial = cut strictly inside the response), dh-edge (full handshake + data both ways with key pairs steered so that the shared secret, the server's or the client's public value starts with zero bytes; all non-trivial), hs-parse (parser hook on valid/malformed responses under random chunkings; non-trivial = ≥2 chunks), wrong-secret / tampered-response (non-trivial = all), data (packet streams both directions under chunk/write-size classes; non-trivial = a chunk boundary falls inside a packet or ≥2 packets), flip (every bit of one packet of each legal edge shape incl. header-only; all non-trivial), flipmix (one bit of one packet of a mixed burst), eos (the last packets arrive in the same underlying read as EOF/reset/timeout, caller buffers 1..70000; all non-trivial), recover (a timeout of the underlying conn, alone or together with data, then more data; all non-trivial), reseed (many PRNG-seed packets processed by a Read while another goroutine Writes; all non-trivial), tickets (histories of connect/issue/restart/age; non-trivial = a ticket is presented or expires), password, hello; distinct by canonical case text"
 	r.Assumptions = []string{
 		"no false mark: the 16-byte mark does not occur in random padding (2^-128 per position); a generated case where it does is reported, not skipped",
 		"the epoch hour does not change between the client's flight and the server's answer (re-read per case; a case straddling the hour is redone)",
@@ -426,7 +428,7 @@ func main() {
 	}{
 		{"hello", e.helloCases}, {"password", e.passwordCases}, {"split", e.splitCases},
 		{"dh-edge", e.dhEdgeCases}, {"hs-parse", e.hsParseCases}, {"nocomplete", e.noCompleteCases}, {"data", e.dataCases},
-		{"garbage", e.garbageCases}, {"flip", e.flipCases}, {"flipmix", e.flipMixCases}, {"reseed", e.reseedCases}, {"eos", e.eosCases}, {"tickets", e.ticketCases},
+		{"garbage", e.garbageCases}, {"flip", e.flipCases}, {"flipmix", e.flipMixCases}, {"reseed", e.reseedCases}, {"eos", e.eosCases}, {"recover", e.recoverCases}, {"tickets", e.ticketCases},
 	}
 	for _, s := range sections {
 		if want(s.name) {
